@@ -17,8 +17,55 @@ Definition wfw (h : heap) (q : hlru) (l : list (addr * entry)) : Prop := chain h
 
 Definition okp (h : heap) (q : hlru) : Prop := exists l, wfw h q l.
 
+(** [ext h q l h' q' l']: what an operation started on the list [(q, l)] in heap [h] may have done when
+    it has reached [(h', q', l')], normally or at a panic: the sentinels are the same, the list gained only
+    freshly allocated nodes, no cell outside the list's own footprint that existed at the start was
+    written, and the capacity is the same ([resize] stores the new one as its last step).  This is what lets several lists share one heap (FaultFamily.v). *)
+Definition ext (h : heap) (q : hlru) (l : list (addr * entry)) (h' : heap) (q' : hlru) (l' : list (addr * entry)) : Prop :=
+  hhead q' = hhead q /\ htail q' = htail q /\ fresh h <= fresh h' /\
+  (forall x, In x (addrs l') -> In x (addrs l) \/ fresh h <= x) /\
+  (forall x, outside q l x -> x < fresh h -> cells h' x = cells h x) /\
+  hcap q' = hcap q.
+
+Definition okx (h : heap) (q : hlru) (l : list (addr * entry)) (h' : heap) (q' : hlru) : Prop :=
+  exists l', wfw h' q' l' /\ ext h q l h' q' l'.
+
+Definition fsafex (h : heap) (q : hlru) (l : list (addr * entry)) {A} (P : A -> Prop) (r : fres A) : Prop :=
+  match r with FOk a => P a | FPanic h' q' => okx h q l h' q' | FErr _ => False end.
+
 Definition fsafe {A} (P : A -> Prop) (r : fres A) : Prop :=
   match r with FOk a => P a | FPanic h q => okp h q | FErr _ => False end.
+
+Lemma ext_refl h q l : ext h q l h q l.
+Proof. repeat split; auto. Qed.
+
+Lemma ext_trans h0 q0 l0 h q l h' q' l' : ext h0 q0 l0 h q l -> ext h q l h' q' l' -> ext h0 q0 l0 h' q' l'.
+Proof.
+  intros (A1 & A2 & A3 & A4 & A5 & A6) (B1 & B2 & B3 & B4 & B5 & B6).
+  split; [congruence|]. split; [congruence|]. split; [lia|]. split; [|split; [|congruence]].
+  - intros x Hx. destruct (B4 x Hx) as [H|H]; [destruct (A4 x H); [now left|right; lia]|right; lia].
+  - intros x (Ho1 & Ho2 & Ho3) Hlt. rewrite B5; [now apply A5| |lia].
+    split; [congruence|]. split; [congruence|]. intros Hin. destruct (A4 x Hin); [contradiction|lia].
+Qed.
+
+Lemma ext_descr h q l h' q' q'' l' :
+  hhead q'' = hhead q' -> htail q'' = htail q' -> hcap q'' = hcap q' -> ext h q l h' q' l' -> ext h q l h' q'' l'.
+Proof.
+  intros E1 E2 E3 (A1 & A2 & A3 & A4 & A5 & A6). split; [congruence|]. split; [congruence|].
+  split; [exact A3|]. split; [exact A4|]. split; [exact A5|congruence].
+Qed.
+
+Lemma okx_refl h q l : wfw h q l -> okx h q l h q.
+Proof. intros H. exists l. split; [exact H|apply ext_refl]. Qed.
+
+Lemma okx_okp h q l h' q' : okx h q l h' q' -> okp h' q'.
+Proof. intros (l' & H & _). now exists l'. Qed.
+
+Lemma okx_trans h0 q0 l0 h q l h' q' : ext h0 q0 l0 h q l -> okx h q l h' q' -> okx h0 q0 l0 h' q'.
+Proof. intros E (l' & Hw & E'). exists l'. split; [exact Hw|eapply ext_trans; eauto]. Qed.
+
+Lemma fsafex_fsafe h q l {A} (P : A -> Prop) (r : fres A) : fsafex h q l P r -> fsafe P r.
+Proof. destruct r; cbn; auto. apply okx_okp. Qed.
 
 Lemma wf_wfw h q l : wf h q l -> wfw h q l.
 Proof.
@@ -36,16 +83,34 @@ Proof. destruct r; cbn; auto. Qed.
 Lemma fsafe_weaken {A} (P Q : A -> Prop) r : fsafe P r -> (forall a, P a -> Q a) -> fsafe Q r.
 Proof. destruct r; cbn; auto. Qed.
 
+Lemma fsafex_bind h q l {A B} (P : A -> Prop) (Q : B -> Prop) (r : fres A) (f : A -> fres B) :
+  fsafex h q l P r -> (forall a, P a -> fsafex h q l Q (f a)) -> fsafex h q l Q (fbind r f).
+Proof. destruct r; cbn; auto. Qed.
+
+Lemma fsafex_weaken h q l {A} (P Q : A -> Prop) r : fsafex h q l P r -> (forall a, P a -> Q a) -> fsafex h q l Q r.
+Proof. destruct r; cbn; auto. Qed.
+
+(** an operation run from a later state of the same list: its footprint composes *)
+Lemma fsafex_trans h0 q0 l0 h q l {A} (P Q : A -> Prop) r :
+  ext h0 q0 l0 h q l -> fsafex h q l P r -> (forall a, P a -> Q a) -> fsafex h0 q0 l0 Q r.
+Proof. intros E. destruct r; cbn; auto. intros H _. eapply okx_trans; eauto. Qed.
+
 Lemma tick_safe c f h q : okp h q -> fsafe (fun _ => True) (tick c f h q).
 Proof.
   intros H. unfold tick. destruct f as [[c' n]|]; [|exact I].
   destruct (tclass_eqb c c'); [destruct n; [exact H|exact I]|exact I].
 Qed.
 
-Lemma tick_find_safe f h q : okp h q -> fsafe (fun _ => True) (tick_find f h q).
-Proof. intros H. unfold tick_find. destruct (hidx q); [exact I|now apply tick_safe]. Qed.
+Lemma tick_safex h0 q0 l0 c f h q : okx h0 q0 l0 h q -> fsafex h0 q0 l0 (fun _ => True) (tick c f h q).
+Proof.
+  intros H. unfold tick. destruct f as [[c' n]|]; [|exact I].
+  destruct (tclass_eqb c c'); [destruct n; [exact H|exact I]|exact I].
+Qed.
 
-Lemma tick_insert_safe f h q : okp h q -> fsafe (fun _ => True) (tick_insert f h q).
+Lemma tick_find_safex h0 q0 l0 f h q : okx h0 q0 l0 h q -> fsafex h0 q0 l0 (fun _ => True) (tick_find f h q).
+Proof. intros H. unfold tick_find. destruct (hidx q); [exact I|now apply tick_safex]. Qed.
+
+Lemma tick_insert_safex h0 q0 l0 f h q : okx h0 q0 l0 h q -> fsafex h0 q0 l0 (fun _ => True) (tick_insert f h q).
 Proof. intros H. unfold tick_insert. destruct f as [[[] n]|]; cbn; auto. Qed.
 
 (** the index may lose entries when a rehash is interrupted: any sub-index is still fine *)
@@ -64,6 +129,7 @@ Proof. intros (A & B) H. split; [exact A|]. intros p Hp. destruct (B p Hp). auto
 
 Lemma idx_sub_descr q q' l : hidx q' = hidx q -> idx_sub q l -> idx_sub q' l.
 Proof. unfold idx_sub. now intros ->. Qed.
+
 
 (** ** the index under [wfw] *)
 Lemma find_w h q l k : forall i,
@@ -131,9 +197,10 @@ Qed.
 Lemma touch_w h q l1 a k v l2 :
   chain h q (l1 ++ (a, (k, v)) :: l2) ->
   exists h1 h2, detach h a = HOk h1 /\ attach h1 q a = HOk h2 /\ chain h2 q ((a, (k, v)) :: l1 ++ l2) /\
-                fresh h2 = fresh h.
+                fresh h2 = fresh h /\
+                (forall x, outside q (l1 ++ (a, (k, v)) :: l2) x -> cells h2 x = cells h x).
 Proof.
-  intros Hc. destruct (detach_chain h q l1 a (k, v) l2 Hc) as (h1 & E1 & Hc1 & Ea & Ef1 & _).
+  intros Hc. destruct (detach_chain h q l1 a (k, v) l2 Hc) as (h1 & E1 & Hc1 & Ea & Ef1 & Hfr1).
   pose proof (seg_mid _ _ _ _ _ _ _ _ (ch_seg _ _ _ Hc)) as Ecell. rewrite <- Ea in Ecell.
   pose proof (ch_nodup _ _ _ Hc) as Hnd0. rewrite addrs_app in Hnd0. cbn [addrs map fst] in Hnd0.
   destruct (nodup_split_facts _ _ _ _ _ Hnd0) as (Hht & Hha & Hta & Hh1 & Hh2 & Ht1 & Ht2 & Ha1 & Ha2 & _).
@@ -141,67 +208,92 @@ Proof.
   { rewrite addrs_app. cbn [In]. rewrite in_app_iff. intros [E|[E|[H|H]]]; congruence || contradiction. }
   assert (Hlt : a < fresh h1).
   { rewrite Ef1. apply (ch_fresh _ _ _ Hc). right. right. rewrite addrs_app. apply in_or_app. right. now left. }
-  destruct (attach_chain h1 q (l1 ++ l2) a k v _ _ Hc1 Hnotin Hlt Ecell) as (h2 & E2 & Hc2 & Ef2 & _).
-  exists h1, h2. split; [exact E1|split; [exact E2|split; [exact Hc2|congruence]]].
+  destruct (attach_chain h1 q (l1 ++ l2) a k v _ _ Hc1 Hnotin Hlt Ecell) as (h2 & E2 & Hc2 & Ef2 & Hfr2).
+  exists h1, h2. split; [exact E1|split; [exact E2|split; [exact Hc2|split; [congruence|]]]].
+  intros x Ho. destruct (outside_split _ _ _ _ _ _ Ho) as (X1 & X2 & X3 & X4).
+  rewrite Hfr2 by assumption. now apply Hfr1.
 Qed.
 
 Lemma addrs_front (l1 : list (addr * entry)) a e e' l2 x :
   In x (addrs (l1 ++ (a, e) :: l2)) -> In x (addrs ((a, e') :: l1 ++ l2)).
 Proof. intros H. now apply (addrs_front_incl l1 a e e' l2 x). Qed.
 
+Lemma addrs_front_back (l1 : list (addr * entry)) a e e' l2 x :
+  In x (addrs ((a, e') :: l1 ++ l2)) -> In x (addrs (l1 ++ (a, e) :: l2)).
+Proof. intros H. now apply (addrs_front_incl l1 a e e' l2 x). Qed.
+
+(** building [ext] for a step that keeps the sentinels and the allocation pointer *)
+Lemma ext_same h q l h' q' l' :
+  hhead q' = hhead q -> htail q' = htail q -> hcap q' = hcap q -> fresh h' = fresh h ->
+  (forall x, In x (addrs l') -> In x (addrs l)) ->
+  (forall x, outside q l x -> cells h' x = cells h x) -> ext h q l h' q' l'.
+Proof.
+  intros E1 E2 E3 Ef Hin Hfr. split; [exact E1|]. split; [exact E2|]. split; [lia|]. split; [|split; [|exact E3]].
+  - intros x Hx. left. now apply Hin.
+  - intros x Ho _. now apply Hfr.
+Qed.
+
 (** ** find, get, peek, contains *)
 Lemma f_find_safe f h q l k :
   wfw h q l ->
-  fsafe (fun '(f1, r) => match r with Some a => In (a, a) (hidx q) /\ exists v, In (a, (k, v)) l | None => True end)
+  fsafex h q l (fun '(f1, r) => match r with Some a => In (a, a) (hidx q) /\ exists v, In (a, (k, v)) l | None => True end)
         (f_find f h q k).
 Proof.
-  intros Hw. unfold f_find. eapply fsafe_bind; [apply tick_find_safe; now exists l|]. intros f1 _.
+  intros Hw. unfold f_find. eapply fsafex_bind; [apply tick_find_safex; now apply okx_refl|]. intros f1 _.
   destruct Hw as (Hc & Hnd & Hall). destruct (find_w h q l k (hidx q) Hc Hall) as (r & -> & Hr). cbn. exact Hr.
 Qed.
 
 Theorem f_get_mut_safe f h q l k w :
-  wfw h q l -> fsafe (fun '(f1, h1, r) => okp h1 q) (f_get_mut f h q k w).
+  wfw h q l -> fsafex h q l (fun '(f1, h1, r) => okx h q l h1 q) (f_get_mut f h q k w).
 Proof.
-  intros Hw. unfold f_get_mut. eapply fsafe_bind; [apply (f_find_safe f h q l k Hw)|].
-  intros [f1 r] Hr. destruct r as [a|]; [|cbn; now exists l].
+  intros Hw. unfold f_get_mut. eapply fsafex_bind; [apply (f_find_safe f h q l k Hw)|].
+  intros [f1 r] Hr. destruct r as [a|]; [|cbn; now apply okx_refl].
   destruct Hr as [Hi (v & Hin)]. destruct (in_split_entry l a k v Hin) as (l1 & l2 & ->).
   destruct Hw as (Hc & Hs).
-  destruct (touch_w h q l1 a k v l2 Hc) as (h1 & h2 & -> & E2 & Hc2 & Ef). cbn [lift fbind]. rewrite E2. cbn [lift fbind].
+  destruct (touch_w h q l1 a k v l2 Hc) as (h1 & h2 & -> & E2 & Hc2 & Ef & Hfr). cbn [lift fbind]. rewrite E2. cbn [lift fbind].
   pose proof (ch_seg _ _ _ Hc2) as Hs2. cbn [seg] in Hs2. destruct Hs2 as [Ec2 _].
-  rewrite (hread_node _ _ _ _ _ _ Ec2). cbn [lift fbind fsafe].
+  rewrite (hread_node _ _ _ _ _ _ Ec2). cbn [lift fbind fsafex].
   assert (Hs' : idx_sub q ((a, (k, v)) :: l1 ++ l2)) by (eapply idx_sub_incl; [exact Hs|apply addrs_front]).
   destruct w as [w|].
-  - exists ((a, (k, w)) :: l1 ++ l2). split.
+  - exists ((a, (k, w)) :: l1 ++ l2). split; [split|].
     + apply (chain_set_entry h2 q [] a (k, v) (k, w) (l1 ++ l2) _ _ Hc2 Ec2).
     + exact Hs'.
-  - exists ((a, (k, v)) :: l1 ++ l2). split; assumption.
+    + apply ext_same; [reflexivity|reflexivity|reflexivity|now rewrite fresh_hupd| |].
+      * intros x. apply addrs_front_back.
+      * intros x Ho. destruct (outside_split _ _ _ _ _ _ Ho) as (_ & _ & X3 & _).
+        rewrite cells_hupd_other by exact X3. now apply Hfr.
+  - exists ((a, (k, v)) :: l1 ++ l2). split; [split; assumption|].
+    apply ext_same; [reflexivity|reflexivity|reflexivity|exact Ef| |exact Hfr]. intros x. apply addrs_front_back.
 Qed.
 
 Lemma h_write_w h q l a k v w :
   wfw h q l -> In (a, (k, v)) l ->
-  exists h1 e, h_write h a w = HOk (h1, e) /\ okp h1 q.
+  exists h1 e, h_write h a w = HOk (h1, e) /\ okx h q l h1 q.
 Proof.
   intros (Hc & Hs) Hin. destruct (in_split_entry l a k v Hin) as (l1 & l2 & ->).
   pose proof (seg_mid _ _ _ _ _ _ _ _ (ch_seg _ _ _ Hc)) as Ecell.
   unfold h_write. rewrite (hread_node _ _ _ _ _ _ Ecell). cbn [hbind].
   destruct w as [w|]; do 2 eexists; (split; [reflexivity|]).
-  - exists (l1 ++ (a, (k, w)) :: l2). split; [apply (chain_set_entry h q l1 a (k, v) (k, w) l2 _ _ Hc Ecell)|].
-    eapply idx_sub_incl; [exact Hs|]. intros x. rewrite !addrs_app. cbn [addrs map fst]. auto.
-  - exists (l1 ++ (a, (k, v)) :: l2). split; assumption.
+  - exists (l1 ++ (a, (k, w)) :: l2). split; [split; [apply (chain_set_entry h q l1 a (k, v) (k, w) l2 _ _ Hc Ecell)|]|].
+    + eapply idx_sub_incl; [exact Hs|]. intros x. rewrite !addrs_app. cbn [addrs map fst]. auto.
+    + apply ext_same; [reflexivity|reflexivity|reflexivity|now rewrite fresh_hupd| |].
+      * intros x. rewrite !addrs_app. cbn [addrs map fst]. auto.
+      * intros x Ho. destruct (outside_split _ _ _ _ _ _ Ho) as (_ & _ & X3 & _). now apply cells_hupd_other.
+  - apply okx_refl. split; assumption.
 Qed.
 
 Theorem f_peek_mut_safe f h q l k w :
-  wfw h q l -> fsafe (fun '(f1, h1, r) => okp h1 q) (f_peek_mut f h q k w).
+  wfw h q l -> fsafex h q l (fun '(f1, h1, r) => okx h q l h1 q) (f_peek_mut f h q k w).
 Proof.
-  intros Hw. unfold f_peek_mut. eapply fsafe_bind; [apply (f_find_safe f h q l k Hw)|].
-  intros [f1 r] Hr. destruct r as [a|]; [|cbn; now exists l].
+  intros Hw. unfold f_peek_mut. eapply fsafex_bind; [apply (f_find_safe f h q l k Hw)|].
+  intros [f1 r] Hr. destruct r as [a|]; [|cbn; now apply okx_refl].
   destruct Hr as [Hi (v & Hin)]. destruct (h_write_w h q l a k v w Hw Hin) as (h1 & e & -> & Hok). cbn. exact Hok.
 Qed.
 
 Theorem f_peek_safe f h q l k :
-  wfw h q l -> fsafe (fun _ => True) (f_peek f h q k).
+  wfw h q l -> fsafex h q l (fun _ => True) (f_peek f h q k).
 Proof.
-  intros Hw. unfold f_peek. eapply fsafe_bind; [apply (f_find_safe f h q l k Hw)|].
+  intros Hw. unfold f_peek. eapply fsafex_bind; [apply (f_find_safe f h q l k Hw)|].
   intros [f1 r] Hr. destruct r as [a|]; [|exact I].
   destruct Hr as [Hi (v & Hin)]. destruct Hw as (Hc & _).
   destruct (seg_lookup _ _ _ _ _ _ _ (ch_seg _ _ _ Hc) Hin) as (pp & nn & E).
@@ -209,23 +301,28 @@ Proof.
 Qed.
 
 Theorem f_contains_safe f h q l k :
-  wfw h q l -> fsafe (fun _ => True) (f_contains f h q k).
+  wfw h q l -> fsafex h q l (fun _ => True) (f_contains f h q k).
 Proof.
-  intros Hw. unfold f_contains. eapply fsafe_bind; [apply (f_find_safe f h q l k Hw)|]. intros [f1 r] _. exact I.
+  intros Hw. unfold f_contains. eapply fsafex_bind; [apply (f_find_safe f h q l k Hw)|]. intros [f1 r] _. exact I.
 Qed.
 
 (** ** put *)
 Lemma update_w h q l n k old v :
-  wfw h q l -> In (n, (k, old)) l -> exists h', h_update h q n v = HOk (h', old) /\ okp h' q.
+  wfw h q l -> In (n, (k, old)) l -> exists h', h_update h q n v = HOk (h', old) /\ okx h q l h' q.
 Proof.
   intros (Hc & Hs) Hin. destruct (in_split_entry l n k old Hin) as (l1 & l2 & ->).
   pose proof (seg_mid _ _ _ _ _ _ _ _ (ch_seg _ _ _ Hc)) as Ecell.
   unfold h_update. rewrite (hread_node _ _ _ _ _ _ Ecell). cbn [hbind].
   pose proof (chain_set_entry h q l1 n (k, old) (k, v) l2 _ _ Hc Ecell) as Hc0. cbn [fst snd] in Hc0.
-  destruct (touch_w _ q l1 n k v l2 Hc0) as (h1 & h2 & E1 & E2 & Hc2 & _). cbv zeta.
+  destruct (touch_w _ q l1 n k v l2 Hc0) as (h1 & h2 & E1 & E2 & Hc2 & Ef & Hfr). cbv zeta.
   rewrite E1. cbn [hbind]. rewrite E2. cbn [hbind].
-  eexists. split; [reflexivity|]. exists ((n, (k, v)) :: l1 ++ l2). split; [exact Hc2|].
-  eapply idx_sub_incl; [exact Hs|apply addrs_front].
+  eexists. split; [reflexivity|]. exists ((n, (k, v)) :: l1 ++ l2). split; [split; [exact Hc2|]|].
+  - eapply idx_sub_incl; [exact Hs|apply addrs_front].
+  - apply ext_same; [reflexivity|reflexivity|reflexivity|now rewrite Ef, fresh_hupd| |].
+    + intros x. apply addrs_front_back.
+    + intros x Ho. pose proof Ho as (Y1 & Y2 & Y3). destruct (outside_split _ _ _ _ _ _ Ho) as (_ & _ & X3 & _).
+      rewrite Hfr; [now apply cells_hupd_other|].
+      split; [exact Y1|]. split; [exact Y2|]. rewrite addrs_app in *. exact Y3.
 Qed.
 
 Lemma idx_nonempty_list q l : idx_sub q l -> hidx q <> [] -> l <> [].
@@ -243,24 +340,26 @@ Proof.
 Qed.
 
 Theorem f_put_safe f h q l k v :
-  wfw h q l -> fsafe (fun '(f1, h1, q1, r) => okp h1 q1) (f_put f h q k v).
+  wfw h q l -> fsafex h q l (fun '(f1, h1, q1, r) => okx h q l h1 q1) (f_put f h q k v).
 Proof.
-  intros Hw. unfold f_put. eapply fsafe_bind; [apply (f_find_safe f h q l k Hw)|].
+  intros Hw. unfold f_put. eapply fsafex_bind; [apply (f_find_safe f h q l k Hw)|].
   intros [f1 r] Hr. destruct r as [n|].
   - destruct Hr as [Hi (old & Hin)]. destruct (update_w h q l n k old v Hw Hin) as (h' & -> & Hok).
-    cbn [lift fbind]. eapply fsafe_bind; [apply tick_safe; exact Hok|]. intros f2 _. exact Hok.
-  - destruct (Nat.eqb_spec (hcap q) 0) as [E0|N0]; [cbn; now exists l|].
+    cbn [lift fbind]. eapply fsafex_bind; [apply tick_safex; exact Hok|]. intros f2 _. exact Hok.
+  - destruct (Nat.eqb_spec (hcap q) 0) as [E0|N0]; [cbn; now apply okx_refl|].
     destruct (Nat.eqb_spec (length (hidx q)) (hcap q)) as [Efull|Nfull].
     + (* recycle *)
       pose proof Hw as (Hc & Hs).
       assert (Hne : l <> []).
       { apply (idx_nonempty_list q l Hs). intros E. rewrite E in Efull. cbn in Efull. congruence. }
-      destruct (rev_ind_split l) as [->|(l' & [a [ek ev]] & ->)]; [congruence|].
+      destruct (rev_ind_split l) as [->|(l' & [a [ek ev]] & El0)]; [congruence|].
+      rewrite El0 in Hc.
       rewrite (tail_prev_last h q l' a (ek, ev) Hc). cbn [lift fbind].
       rewrite (key_at_chain h q _ a ek ev Hc) by (apply in_or_app; right; now left). cbn [lift fbind].
-      eapply fsafe_bind; [apply tick_safe; eexists; exact Hw|]. intros f2 _.
+      rewrite <- El0 in Hc.
+      eapply fsafex_bind; [apply tick_safex; now apply okx_refl|]. intros f2 _.
       destruct (idx_remove_w h q _ ek Hw) as (q1 & r1 & -> & E1 & E2 & E3 & Hr1). cbn [lift fbind].
-      destruct r1 as [old|]; [|cbn; eexists; exact Hw].
+      destruct r1 as [old|]; [|cbn; now apply okx_refl].
       destruct Hr1 as (Hs1 & Hno & (v0 & Hin0) & _ & _).
       destruct (in_split_entry _ old ek v0 Hin0) as (l1 & l2 & El). rewrite El in *.
       pose proof (seg_mid _ _ _ _ _ _ _ _ (ch_seg _ _ _ Hc)) as Ecell.
@@ -269,122 +368,145 @@ Proof.
       assert (Hc0' : chain (hupd h old (Node (Some k) (Some v) (last_addr (hhead q) l1) (first_addr l2 (htail q))))
                            q1 (l1 ++ (old, (k, v)) :: l2)) by (eapply chain_descr; [| |exact Hc0]; assumption).
       rewrite <- E1, <- E2 in Hc0'.
-      destruct (touch_w _ q1 l1 old k v l2 Hc0') as (h2 & h3 & Ed & Ea & Hc3 & _).
+      destruct (touch_w _ q1 l1 old k v l2 Hc0') as (h2 & h3 & Ed & Ea & Hc3 & Ef3 & Hfr3).
       rewrite E1, E2 in Ed. rewrite Ed. cbn [lift fbind]. rewrite Ea. cbn [lift fbind].
       assert (Hs3 : idx_sub q1 ((old, (k, v)) :: l1 ++ l2)).
       { eapply idx_sub_incl; [exact Hs1|]. intros x. apply addrs_front. }
-      eapply fsafe_bind; [apply tick_insert_safe; eexists; split; eassumption|]. intros f3 _.
-      assert (Hok : okp h3 (idx_insert q1 old)).
-      { eexists. split; [eapply chain_descr; [| |exact Hc3]; reflexivity|].
+      assert (Hext : forall q2, hhead q2 = hhead q -> htail q2 = htail q -> hcap q2 = hcap q ->
+                ext h q (l1 ++ (old, (ek, v0)) :: l2) h3 q2 ((old, (k, v)) :: l1 ++ l2)).
+      { intros q2 X1 X2 X3c. apply ext_same; [exact X1|exact X2|exact X3c|now rewrite Ef3, fresh_hupd| |].
+        - intros x. apply addrs_front_back.
+        - intros x Ho. pose proof Ho as (Y1 & Y2 & Y3). destruct (outside_split _ _ _ _ _ _ Ho) as (_ & _ & X3 & _).
+          rewrite Hfr3; [now apply cells_hupd_other|].
+          split; [congruence|]. split; [congruence|]. rewrite addrs_app in *. exact Y3. }
+      eapply fsafex_bind; [apply tick_insert_safex; eexists; split; [split; eassumption|now apply Hext]|]. intros f3 _.
+      assert (Hok : okx h q (l1 ++ (old, (ek, v0)) :: l2) h3 (idx_insert q1 old)).
+      { eexists. split; [split; [eapply chain_descr; [| |exact Hc3]; reflexivity|]|now apply Hext].
         apply idx_sub_insert; [exact Hs3|now left|exact Hno]. }
-      eapply fsafe_bind; [apply tick_safe; exact Hok|]. intros f4 _. exact Hok.
+      eapply fsafex_bind; [apply tick_safex; exact Hok|]. intros f4 _. exact Hok.
     + (* room *)
       pose proof Hw as (Hc & Hs).
       pose proof (chain_alloc h q l (Some k) (Some v) Hc) as Ha.
       pose proof (not_in_idx_fresh h q l Hw) as Hnf.
-      destruct (halloc h (Some k) (Some v)) as [h1 nn]. destruct Ha as (Hc1 & -> & Ef1 & Ecell & Hnotin).
+      destruct (halloc h (Some k) (Some v)) as [h1 nn] eqn:Eal. destruct Ha as (Hc1 & -> & Ef1 & Ecell & Hnotin).
       assert (Hlt : fresh h < fresh h1) by lia.
-      destruct (attach_chain h1 q l (fresh h) k v _ _ Hc1 Hnotin Hlt Ecell) as (h2 & -> & Hc2 & Ef2 & _).
+      destruct (attach_chain h1 q l (fresh h) k v _ _ Hc1 Hnotin Hlt Ecell) as (h2 & -> & Hc2 & Ef2 & Hfr2).
       cbn [lift fbind].
       assert (Hs2 : idx_sub q ((fresh h, (k, v)) :: l)).
       { eapply idx_sub_incl; [exact Hs|]. intros x Hx. now right. }
-      eapply fsafe_bind; [apply tick_insert_safe; eexists; split; eassumption|]. intros f2 _.
-      cbn. eexists. split; [eapply chain_descr; [| |exact Hc2]; reflexivity|].
+      assert (Hext : forall q2, hhead q2 = hhead q -> htail q2 = htail q -> hcap q2 = hcap q ->
+                                ext h q l h2 q2 ((fresh h, (k, v)) :: l)).
+      { intros q2 X1 X2 X3c. split; [exact X1|]. split; [exact X2|]. split; [lia|]. split; [|split; [|exact X3c]].
+        - cbn [addrs map fst In]. intros x [<-|Hx]; [right; lia|now left].
+        - intros x (Y1 & Y2 & Y3) Hx. rewrite Hfr2; [|assumption|assumption|lia|assumption].
+          unfold halloc in Eal. inversion Eal; subst h1. cbn. destruct (Nat.eqb_spec x (fresh h)); [lia|reflexivity]. }
+      eapply fsafex_bind; [apply tick_insert_safex; eexists; split; [split; eassumption|now apply Hext]|]. intros f2 _.
+      cbn. eexists. split; [split; [eapply chain_descr; [| |exact Hc2]; reflexivity|]|now apply Hext].
       apply idx_sub_insert; [exact Hs2|now left|exact Hnf].
 Qed.
 
 (** ** remove, remove_lru *)
 Lemma unlink_free_w h q q1 l n k v :
-  chain h q l -> hhead q1 = hhead q -> htail q1 = htail q ->
+  chain h q l -> hhead q1 = hhead q -> htail q1 = htail q -> hcap q1 = hcap q ->
   idx_sub q1 l -> ~ In n (map snd (hidx q1)) -> In (n, (k, v)) l ->
-  exists h1 h2, detach h n = HOk h1 /\ take_kv h1 n = HOk (k, v) /\ hfree h1 n = HOk h2 /\ okp h2 q1.
+  exists h1 h2, detach h n = HOk h1 /\ take_kv h1 n = HOk (k, v) /\ hfree h1 n = HOk h2 /\ okx h q l h2 q1.
 Proof.
-  intros Hc E1 E2 Hs Hno Hin. destruct (in_split_entry l n k v Hin) as (l1 & l2 & ->).
-  destruct (detach_chain h q l1 n (k, v) l2 Hc) as (h1 & Ed & Hc1 & Ea & Ef1 & _).
+  intros Hc E1 E2 E3 Hs Hno Hin. destruct (in_split_entry l n k v Hin) as (l1 & l2 & ->).
+  destruct (detach_chain h q l1 n (k, v) l2 Hc) as (h1 & Ed & Hc1 & Ea & Ef1 & Hfr1).
   pose proof (seg_mid _ _ _ _ _ _ _ _ (ch_seg _ _ _ Hc)) as Ecell. rewrite <- Ea in Ecell.
   pose proof (ch_nodup _ _ _ Hc) as Hnd0. rewrite addrs_app in Hnd0. cbn [addrs map fst] in Hnd0.
   destruct (nodup_split_facts _ _ _ _ _ Hnd0) as (Hht & Hha & Hta & Hh1 & Hh2 & Ht1 & Ht2 & Ha1 & Ha2 & _).
   assert (Hnotin : ~ In n (hhead q :: htail q :: addrs (l1 ++ l2))).
   { rewrite addrs_app. cbn [In]. rewrite in_app_iff. intros [E|[E|[H|H]]]; congruence || contradiction. }
-  destruct (chain_free h1 q (l1 ++ l2) n Hc1 Hnotin ltac:(eauto)) as (h2 & Ef & Hc2 & _).
+  destruct (chain_free h1 q (l1 ++ l2) n Hc1 Hnotin ltac:(eauto)) as (h2 & Ef & Hc2 & _ & Ef2 & Hfr2).
   exists h1, h2. split; [exact Ed|]. split; [unfold take_kv; now rewrite (hread_node _ _ _ _ _ _ Ecell)|].
-  split; [exact Ef|]. exists (l1 ++ l2). split; [eapply chain_descr; [| |exact Hc2]; assumption|].
-  destruct Hs as (A & B). split; [exact A|]. intros p Hp. destruct (B p Hp) as [Ep Hpin]. split; [exact Ep|].
-  rewrite addrs_app in Hpin. cbn [addrs map fst] in Hpin. rewrite addrs_app.
-  apply in_app_or in Hpin. apply in_or_app. destruct Hpin as [H|[H|H]]; [now left| |now right].
-  exfalso. apply Hno. apply in_map_iff. exists p. split; [congruence|exact Hp].
+  split; [exact Ef|]. exists (l1 ++ l2). split; [split; [eapply chain_descr; [| |exact Hc2]; assumption|]|].
+  - destruct Hs as (A & B). split; [exact A|]. intros p Hp. destruct (B p Hp) as [Ep Hpin]. split; [exact Ep|].
+    rewrite addrs_app in Hpin. cbn [addrs map fst] in Hpin. rewrite addrs_app.
+    apply in_app_or in Hpin. apply in_or_app. destruct Hpin as [H|[H|H]]; [now left| |now right].
+    exfalso. apply Hno. apply in_map_iff. exists p. split; [congruence|exact Hp].
+  - apply ext_same; [exact E1|exact E2|exact E3|congruence| |].
+    + intros x. rewrite !addrs_app. cbn [addrs map fst]. rewrite !in_app_iff. cbn [In]. tauto.
+    + intros x Ho. destruct (outside_split _ _ _ _ _ _ Ho) as (X1 & X2 & X3 & X4).
+      rewrite Hfr2 by exact X3. now apply Hfr1.
 Qed.
 
 Theorem f_remove_safe f h q l k :
   wfw h q l ->
-  fsafe (fun '(f1, h1, q1, r) => okp h1 q1 /\ hhead q1 = hhead q /\ htail q1 = htail q) (f_remove f h q k).
+  fsafex h q l (fun '(f1, h1, q1, r) => okx h q l h1 q1) (f_remove f h q k).
 Proof.
-  intros Hw. unfold f_remove. eapply fsafe_bind; [apply tick_safe; eexists; exact Hw|]. intros f1 _.
+  intros Hw. unfold f_remove. eapply fsafex_bind; [apply tick_safex; now apply okx_refl|]. intros f1 _.
   destruct (idx_remove_w h q l k Hw) as (q1 & r & -> & E1 & E2 & E3 & Hr). cbn [lift fbind].
-  destruct r as [n|]; [|subst q1; cbn; split; [eexists; exact Hw|auto]].
+  destruct r as [n|]; [|subst q1; cbn; now apply okx_refl].
   destruct Hr as (Hs1 & Hno & (v & Hin) & _ & _). destruct Hw as (Hc & _).
-  destruct (unlink_free_w h q q1 l n k v Hc E1 E2 Hs1 Hno Hin) as (h1 & h2 & Ed & Et & Ef & Hok).
+  destruct (unlink_free_w h q q1 l n k v Hc E1 E2 E3 Hs1 Hno Hin) as (h1 & h2 & Ed & Et & Ef & Hok).
   rewrite Ed. cbn [lift fbind]. rewrite Et. cbn [lift fbind]. rewrite Ef.
-  cbn [lift fbind]. eapply fsafe_bind; [apply tick_safe; exact Hok|]. intros f2 _.
-  eapply fsafe_bind; [apply tick_safe; exact Hok|]. intros f3 _. cbn. auto.
+  cbn [lift fbind]. eapply fsafex_bind; [apply tick_safex; exact Hok|]. intros f2 _.
+  eapply fsafex_bind; [apply tick_safex; exact Hok|]. intros f3 _. cbn. exact Hok.
 Qed.
 
 Theorem f_remove_lru_safe f h q l :
   wfw h q l ->
-  fsafe (fun '(f1, h1, q1, r) => okp h1 q1 /\ hhead q1 = hhead q /\ htail q1 = htail q /\
+  fsafex h q l (fun '(f1, h1, q1, r) => okx h q l h1 q1 /\
                                 match r with Some _ => S (length (hidx q1)) = length (hidx q)
                                            | None => hidx q1 = hidx q end)
         (f_remove_lru f h q).
 Proof.
   intros Hw. pose proof Hw as (Hc & Hs). unfold f_remove_lru.
-  destruct (rev_ind_split l) as [->|(l' & [a [ek ev]] & ->)].
-  - rewrite (tail_prev_empty h q Hc). cbn [lift fbind]. rewrite Nat.eqb_refl. cbn. split; [eexists; exact Hw|auto].
-  - rewrite (tail_prev_last h q l' a (ek, ev) Hc). cbn [lift fbind].
+  destruct (rev_ind_split l) as [El0|(l' & [a [ek ev]] & El0)].
+  - rewrite El0 in Hc. rewrite (tail_prev_empty h q Hc). cbn [lift fbind]. rewrite Nat.eqb_refl. cbn.
+    split; [now apply okx_refl|auto].
+  - rewrite El0 in Hc. rewrite (tail_prev_last h q l' a (ek, ev) Hc). cbn [lift fbind].
     pose proof (ch_nodup _ _ _ Hc) as Hnd0. rewrite addrs_app in Hnd0. cbn [addrs map fst] in Hnd0.
     destruct (nodup_split_facts _ _ _ _ _ Hnd0) as (Hht & Hha & _).
     destruct (Nat.eqb_spec a (hhead q)); [congruence|].
     rewrite (key_at_chain h q _ a ek ev Hc) by (apply in_or_app; right; now left). cbn [lift fbind].
-    eapply fsafe_bind; [apply tick_safe; eexists; exact Hw|]. intros f1 _.
+    rewrite <- El0 in Hc.
+    eapply fsafex_bind; [apply tick_safex; now apply okx_refl|]. intros f1 _.
     destruct (idx_remove_w h q _ ek Hw) as (q1 & r & -> & E1 & E2 & E3 & Hr). cbn [lift fbind].
-    destruct r as [b|]; [|subst q1; cbn; split; [eexists; exact Hw|auto]].
+    destruct r as [b|]; [|subst q1; cbn; split; [now apply okx_refl|auto]].
     destruct Hr as (Hs1 & Hno & (v & Hin) & Hlen & _).
-    destruct (unlink_free_w h q q1 _ b ek v Hc E1 E2 Hs1 Hno Hin) as (h1 & h2 & Ed & Et & Ef & Hok).
+    destruct (unlink_free_w h q q1 _ b ek v Hc E1 E2 E3 Hs1 Hno Hin) as (h1 & h2 & Ed & Et & Ef & Hok).
     rewrite Ed. cbn [lift fbind]. rewrite Et. cbn [lift fbind]. rewrite Ef.
-    cbn [lift fbind]. eapply fsafe_bind; [apply tick_safe; exact Hok|]. intros f2 _. cbn. auto.
+    cbn [lift fbind]. eapply fsafex_bind; [apply tick_safex; exact Hok|]. intros f2 _. cbn. auto.
 Qed.
 
 (** ** purge and resize *)
-Lemma f_purge_loop_safe : forall fuel f h q acc,
-  okp h q -> length (hidx q) < fuel ->
-  fsafe (fun '(f1, h1, q1, _) => okp h1 q1 /\ hhead q1 = hhead q /\ htail q1 = htail q) (f_purge_loop fuel f h q acc).
+Lemma f_purge_loop_safe h0 q0 l0 : forall fuel f h q acc,
+  okx h0 q0 l0 h q -> length (hidx q) < fuel ->
+  fsafex h0 q0 l0 (fun '(f1, h1, q1, _) => okx h0 q0 l0 h1 q1) (f_purge_loop fuel f h q acc).
 Proof.
-  induction fuel as [|fuel IH]; intros f h q acc (l & Hw) Hlt; [lia|].
-  cbn [f_purge_loop]. eapply fsafe_bind; [apply (f_remove_lru_safe f h q l Hw)|].
-  intros [[[f1 h1] q1] r] (Hok & E1 & E2 & Hr). destruct r as [e|]; [|cbn; auto].
-  eapply fsafe_bind; [apply tick_safe; exact Hok|]. intros f2 _.
-  eapply fsafe_bind; [apply tick_safe; exact Hok|]. intros f2' _.
-  eapply fsafe_weaken; [apply IH; [exact Hok|lia]|]. intros [[[f3 h3] q3] a3] (A & B & C). split; [exact A|]. split; congruence.
+  induction fuel as [|fuel IH]; intros f h q acc (l & Hw & Hx) Hlt; [lia|].
+  cbn [f_purge_loop]. eapply fsafex_bind.
+  { eapply fsafex_trans; [exact Hx|apply (f_remove_lru_safe f h q l Hw)|]. intros a Ha. exact Ha. }
+  intros [[[f1 h1] q1] r] (Hok & Hr).
+  assert (Hok0 : okx h0 q0 l0 h1 q1) by (eapply okx_trans; eauto).
+  destruct r as [e|]; [|cbn; exact Hok0].
+  eapply fsafex_bind; [apply tick_safex; exact Hok0|]. intros f2 _.
+  eapply fsafex_bind; [apply tick_safex; exact Hok0|]. intros f2' _.
+  apply IH; [exact Hok0|lia].
 Qed.
 
-Theorem f_purge_safe f h q :
-  okp h q -> fsafe (fun '(f1, h1, q1, _) => okp h1 q1 /\ hhead q1 = hhead q /\ htail q1 = htail q) (f_purge f h q).
-Proof. intros H. unfold f_purge. apply f_purge_loop_safe; [exact H|lia]. Qed.
+Theorem f_purge_safe f h q l :
+  wfw h q l -> fsafex h q l (fun '(f1, h1, q1, _) => okx h q l h1 q1) (f_purge f h q).
+Proof. intros H. unfold f_purge. apply f_purge_loop_safe; [now apply okx_refl|lia]. Qed.
 
-Lemma f_resize_loop_safe c : forall fuel f h q acc,
-  okp h q ->
-  fsafe (fun '(f1, h1, q1, _) => okp h1 q1 /\ hhead q1 = hhead q /\ htail q1 = htail q) (f_resize_loop fuel f h q c acc).
+Lemma f_resize_loop_safe h0 q0 l0 c : forall fuel f h q acc,
+  okx h0 q0 l0 h q ->
+  fsafex h0 q0 l0 (fun '(f1, h1, q1, _) => okx h0 q0 l0 h1 q1) (f_resize_loop fuel f h q c acc).
 Proof.
   induction fuel as [|fuel IH]; intros f h q acc Hok; [cbn; auto|].
   cbn [f_resize_loop]. destruct (Nat.ltb c (length (hidx q))); [|cbn; auto].
-  destruct Hok as (l & Hw).
-  eapply fsafe_bind; [apply (f_remove_lru_safe f h q l Hw)|].
-  intros [[[f1 h1] q1] r] (Hok & E1 & E2 & Hr).
-  eapply fsafe_bind with (P := fun _ => True).
-  { destruct r; [apply tick_safe; exact Hok|exact I]. }
-  intros f2 _. eapply fsafe_bind with (P := fun _ => True).
-  { destruct r; [apply tick_safe; exact Hok|exact I]. }
-  intros f2' _. eapply fsafe_weaken; [apply IH; exact Hok|].
-  intros [[[f3 h3] q3] a3] (A & B & C). split; [exact A|]. split; congruence.
+  destruct Hok as (l & Hw & Hx).
+  eapply fsafex_bind.
+  { eapply fsafex_trans; [exact Hx|apply (f_remove_lru_safe f h q l Hw)|]. intros a Ha. exact Ha. }
+  intros [[[f1 h1] q1] r] (Hok & Hr).
+  assert (Hok0 : okx h0 q0 l0 h1 q1) by (eapply okx_trans; eauto).
+  eapply fsafex_bind with (P := fun _ => True).
+  { destruct r; [apply tick_safex; exact Hok0|exact I]. }
+  intros f2 _. eapply fsafex_bind with (P := fun _ => True).
+  { destruct r; [apply tick_safex; exact Hok0|exact I]. }
+  intros f2' _. apply IH; exact Hok0.
 Qed.
 
 Lemma okp_descr h q q' : hhead q' = hhead q -> htail q' = htail q -> hidx q' = hidx q -> okp h q -> okp h q'.
@@ -392,13 +514,26 @@ Proof.
   intros E1 E2 E3 (l & Hc & Hs). exists l. split; [eapply chain_descr; eauto|eapply idx_sub_descr; eauto].
 Qed.
 
-Theorem f_resize_safe f h q c :
-  okp h q -> fsafe (fun '(f1, h1, q1, _) => okp h1 q1) (f_resize f h q c).
+(** [resize] stores the new capacity last: up to there the list is the old one with fewer entries *)
+Definition upto_cap (qm q1 : hlru) (c : nat) : Prop :=
+  hhead q1 = hhead qm /\ htail q1 = htail qm /\ hidx q1 = hidx qm /\ hcap q1 = c.
+
+Lemma upto_cap_refl q : upto_cap q q (hcap q).
+Proof. repeat split. Qed.
+
+Lemma wfw_upto h qm q1 c l : upto_cap qm q1 c -> wfw h qm l -> wfw h q1 l.
 Proof.
-  intros Hok. unfold f_resize. destruct (Nat.eqb c (hcap q)); [exact Hok|].
-  eapply fsafe_bind; [apply f_resize_loop_safe; exact Hok|].
-  intros [[[f1 h1] q1] a1] (A & _). eapply fsafe_bind; [apply tick_insert_safe; exact A|]. intros f2 _.
-  cbn. eapply okp_descr; [| | |exact A]; reflexivity.
+  intros (E1 & E2 & E3 & _) (Hc & Hs). split; [eapply chain_descr; eauto|eapply idx_sub_descr; eauto].
+Qed.
+
+Theorem f_resize_safe f h q l c :
+  wfw h q l -> fsafex h q l (fun '(f1, h1, q1, _) => exists qm, okx h q l h1 qm /\ upto_cap qm q1 c) (f_resize f h q c).
+Proof.
+  intros Hw. unfold f_resize. destruct (Nat.eqb_spec c (hcap q)) as [->|Hne].
+  { cbn. exists q. split; [now apply okx_refl|apply upto_cap_refl]. }
+  eapply fsafex_bind; [apply f_resize_loop_safe; now apply okx_refl|].
+  intros [[[f1 h1] q1] a1] A. eapply fsafex_bind; [apply tick_insert_safex; exact A|]. intros f2 _.
+  cbn. exists q1. split; [exact A|]. repeat split.
 Qed.
 
 (** ** the operations that call no user code *)
@@ -408,39 +543,41 @@ Proof.
 Qed.
 
 Theorem h_get_lru_w h q l w :
-  wfw h q l -> exists h1 r, h_get_lru h q w = HOk (h1, r) /\ okp h1 q.
+  wfw h q l -> exists h1 r, h_get_lru h q w = HOk (h1, r) /\ okx h q l h1 q.
 Proof.
   intros Hw. pose proof Hw as (Hc & Hs). unfold h_get_lru.
-  destruct (length (hidx q) =? 0) eqn:E0; [do 2 eexists; split; [reflexivity|eexists; exact Hw]|].
+  destruct (length (hidx q) =? 0) eqn:E0; [do 2 eexists; split; [reflexivity|now apply okx_refl]|].
   pose proof (idx_len0_w q l Hs E0) as Hne.
   destruct (rev_ind_split l) as [->|(l' & [a [k v]] & ->)]; [congruence|].
   rewrite (tail_prev_last h q l' a (k, v) Hc). cbn [hbind].
-  destruct (touch_w h q l' a k v [] Hc) as (h1 & h2 & -> & E2 & Hc2 & _). cbn [hbind]. rewrite E2. cbn [hbind].
+  destruct (touch_w h q l' a k v [] Hc) as (h1 & h2 & -> & E2 & Hc2 & Ef2 & Hfr2). cbn [hbind]. rewrite E2. cbn [hbind].
   rewrite app_nil_r in Hc2.
   assert (Hw2 : wfw h2 q ((a, (k, v)) :: l')).
   { split; [exact Hc2|]. eapply idx_sub_incl; [exact Hs|]. intros x Hx.
     pose proof (addrs_front l' a (k, v) (k, v) [] x Hx) as H. now rewrite app_nil_r in H. }
   destruct (h_write_w h2 q _ a k v w Hw2 (or_introl eq_refl)) as (h3 & e & -> & Hok). cbn [hbind].
-  do 2 eexists. split; [reflexivity|exact Hok].
+  do 2 eexists. split; [reflexivity|]. eapply okx_trans; [|exact Hok].
+  apply ext_same; [reflexivity|reflexivity|reflexivity|exact Ef2| |exact Hfr2].
+  intros x Hx. pose proof (addrs_front_back l' a (k, v) (k, v) [] x) as H. rewrite app_nil_r in H. now apply H.
 Qed.
 
 Theorem h_peek_lru_w h q l w :
-  wfw h q l -> exists h1 r, h_peek_lru h q w = HOk (h1, r) /\ okp h1 q.
+  wfw h q l -> exists h1 r, h_peek_lru h q w = HOk (h1, r) /\ okx h q l h1 q.
 Proof.
   intros Hw. pose proof Hw as (Hc & Hs). unfold h_peek_lru.
-  destruct (length (hidx q) =? 0) eqn:E0; [do 2 eexists; split; [reflexivity|eexists; exact Hw]|].
+  destruct (length (hidx q) =? 0) eqn:E0; [do 2 eexists; split; [reflexivity|now apply okx_refl]|].
   pose proof (idx_len0_w q l Hs E0) as Hne.
-  destruct (rev_ind_split l) as [->|(l' & [a [k v]] & ->)]; [congruence|].
-  rewrite (tail_prev_last h q l' a (k, v) Hc). cbn [hbind].
-  destruct (h_write_w h q _ a k v w Hw ltac:(apply in_or_app; right; now left)) as (h3 & e & -> & Hok). cbn [hbind].
+  destruct (rev_ind_split l) as [El0|(l' & [a [k v]] & El0)]; [congruence|].
+  rewrite El0 in Hc. rewrite (tail_prev_last h q l' a (k, v) Hc). cbn [hbind].
+  destruct (h_write_w h q _ a k v w Hw ltac:(rewrite El0; apply in_or_app; right; now left)) as (h3 & e & -> & Hok). cbn [hbind].
   do 2 eexists. split; [reflexivity|exact Hok].
 Qed.
 
 Theorem h_peek_mru_w h q l w :
-  wfw h q l -> exists h1 r, h_peek_mru h q w = HOk (h1, r) /\ okp h1 q.
+  wfw h q l -> exists h1 r, h_peek_mru h q w = HOk (h1, r) /\ okx h q l h1 q.
 Proof.
   intros Hw. pose proof Hw as (Hc & Hs). unfold h_peek_mru.
-  destruct (length (hidx q) =? 0) eqn:E0; [do 2 eexists; split; [reflexivity|eexists; exact Hw]|].
+  destruct (length (hidx q) =? 0) eqn:E0; [do 2 eexists; split; [reflexivity|now apply okx_refl]|].
   pose proof (idx_len0_w q l Hs E0) as Hne.
   destruct l as [|[a [k v]] l']; [congruence|].
   destruct (ch_head _ _ _ Hc) as [hp Eh]. cbn [first_addr] in Eh.
@@ -451,48 +588,62 @@ Qed.
 
 (** ** peek_or_put, contains_or_put *)
 Theorem f_peek_mut_or_put_safe f h q l k v w :
-  wfw h q l -> fsafe (fun '(f1, h1, q1, a, b) => okp h1 q1) (f_peek_mut_or_put f h q k v w).
+  wfw h q l -> fsafex h q l (fun '(f1, h1, q1, a, b) => okx h q l h1 q1) (f_peek_mut_or_put f h q k v w).
 Proof.
-  intros Hw. unfold f_peek_mut_or_put. eapply fsafe_bind; [apply (f_find_safe f h q l k Hw)|].
+  intros Hw. unfold f_peek_mut_or_put. eapply fsafex_bind; [apply (f_find_safe f h q l k Hw)|].
   intros [f1 r] Hr. destruct r as [a|].
   - destruct Hr as [Hi (v0 & Hin)].
-    eapply fsafe_bind; [apply tick_safe; eexists; exact Hw|]. intros f2 _.
-    eapply fsafe_bind; [apply tick_safe; eexists; exact Hw|]. intros f3 _.
+    eapply fsafex_bind; [apply tick_safex; now apply okx_refl|]. intros f2 _.
+    eapply fsafex_bind; [apply tick_safex; now apply okx_refl|]. intros f3 _.
     destruct (h_write_w h q l a k v0 w Hw Hin) as (h1 & e & -> & Hok). cbn. exact Hok.
-  - eapply fsafe_bind; [apply (f_put_safe f1 h q l k v Hw)|].
+  - eapply fsafex_bind; [apply (f_put_safe f1 h q l k v Hw)|].
     intros [[[f2 h2] q2] pr] Hok2. exact Hok2.
 Qed.
 
 Theorem f_contains_or_put_safe f h q l k v :
-  wfw h q l -> fsafe (fun '(f1, h1, q1, a, b) => okp h1 q1) (f_contains_or_put f h q k v).
+  wfw h q l -> fsafex h q l (fun '(f1, h1, q1, a, b) => okx h q l h1 q1) (f_contains_or_put f h q k v).
 Proof.
-  intros Hw. unfold f_contains_or_put. eapply fsafe_bind; [apply (f_contains_safe f h q l k Hw)|].
+  intros Hw. unfold f_contains_or_put. eapply fsafex_bind; [apply (f_contains_safe f h q l k Hw)|].
   intros [f1 b] _. destruct b.
-  - eapply fsafe_bind; [apply tick_safe; eexists; exact Hw|]. intros f2 _.
-    eapply fsafe_bind; [apply tick_safe; eexists; exact Hw|]. intros f3 _. cbn. eexists; exact Hw.
-  - eapply fsafe_bind; [apply (f_put_safe f1 h q l k v Hw)|]. intros [[[f2 h2] q2] pr] Hok2. exact Hok2.
+  - eapply fsafex_bind; [apply tick_safex; now apply okx_refl|]. intros f2 _.
+    eapply fsafex_bind; [apply tick_safex; now apply okx_refl|]. intros f3 _. cbn. now apply okx_refl.
+  - eapply fsafex_bind; [apply (f_put_safe f1 h q l k v Hw)|]. intros [[[f2 h2] q2] pr] Hok2. exact Hok2.
 Qed.
 
-(** ** one step of the fault machine *)
+(** ** one step of the fault machine, with its footprint *)
+Definition hop_cap (o : hop) (c : nat) : nat := match o with HResize c' => c' | _ => c end.
+
+Theorem fstep_safex f h q l o :
+  wfw h q l ->
+  fsafex h q l (fun '(f1, h1, q1, r) => exists qm, okx h q l h1 qm /\ upto_cap qm q1 (hop_cap o (hcap qm))) (fstep f h q o).
+Proof.
+  intros Hw.
+  assert (Hsame : forall h1 q1, okx h q l h1 q1 -> exists qm, okx h q l h1 qm /\ upto_cap qm q1 (hcap qm)).
+  { intros h1 q1 H. exists q1. split; [exact H|apply upto_cap_refl]. }
+  destruct o as [k v|k w|k|k| | |c|k w|k|w|w|w|k v w|k v]; cbn [fstep hop_cap].
+  - eapply fsafex_bind; [apply (f_put_safe f h q l k v Hw)|]. intros [[[f1 h1] q1] r] H. cbn. now apply Hsame.
+  - eapply fsafex_bind; [apply (f_get_mut_safe f h q l k w Hw)|]. intros [[f1 h1] r] H. cbn. now apply Hsame.
+  - eapply fsafex_bind; [apply (f_peek_safe f h q l k Hw)|]. intros [f1 r] _. cbn. apply Hsame. now apply okx_refl.
+  - eapply fsafex_bind; [apply (f_remove_safe f h q l k Hw)|]. intros [[[f1 h1] q1] r] H. cbn. now apply Hsame.
+  - eapply fsafex_bind; [apply (f_remove_lru_safe f h q l Hw)|]. intros [[[f1 h1] q1] r] (H & _). cbn. now apply Hsame.
+  - eapply fsafex_bind; [apply (f_purge_safe f h q l Hw)|]. intros [[[f1 h1] q1] a1] H. cbn. now apply Hsame.
+  - eapply fsafex_bind; [apply (f_resize_safe f h q l c Hw)|]. intros [[[f1 h1] q1] a1] H. exact H.
+  - eapply fsafex_bind; [apply (f_peek_mut_safe f h q l k w Hw)|]. intros [[f1 h1] r] H. cbn. now apply Hsame.
+  - eapply fsafex_bind; [apply (f_contains_safe f h q l k Hw)|]. intros [f1 b] _. cbn. apply Hsame. now apply okx_refl.
+  - destruct (h_get_lru_w h q l w Hw) as (h1 & r & -> & Hok). cbn. now apply Hsame.
+  - destruct (h_peek_lru_w h q l w Hw) as (h1 & r & -> & Hok). cbn. now apply Hsame.
+  - destruct (h_peek_mru_w h q l w Hw) as (h1 & r & -> & Hok). cbn. now apply Hsame.
+  - eapply fsafex_bind; [apply (f_peek_mut_or_put_safe f h q l k v w Hw)|]. intros [[[[f1 h1] q1] a] b] H. cbn. now apply Hsame.
+  - eapply fsafex_bind; [apply (f_contains_or_put_safe f h q l k v Hw)|]. intros [[[[f1 h1] q1] a] b] H. cbn. now apply Hsame.
+Qed.
+
 Theorem fstep_safe f h q o :
   okp h q -> fsafe (fun '(f1, h1, q1, r) => okp h1 q1) (fstep f h q o).
 Proof.
-  intros (l & Hw). destruct o as [k v|k w|k|k| | |c|k w|k|w|w|w|k v w|k v]; cbn [fstep].
-  - eapply fsafe_bind; [apply (f_put_safe f h q l k v Hw)|]. intros [[[f1 h1] q1] r] H. exact H.
-  - eapply fsafe_bind; [apply (f_get_mut_safe f h q l k w Hw)|]. intros [[f1 h1] r] H. exact H.
-  - eapply fsafe_bind; [apply (f_peek_safe f h q l k Hw)|]. intros [f1 r] _. cbn. eexists; exact Hw.
-  - eapply fsafe_bind; [apply (f_remove_safe f h q l k Hw)|]. intros [[[f1 h1] q1] r] (H & _). exact H.
-  - eapply fsafe_bind; [apply (f_remove_lru_safe f h q l Hw)|]. intros [[[f1 h1] q1] r] (H & _). exact H.
-  - eapply fsafe_bind; [apply (f_purge_safe f h q); eexists; exact Hw|]. intros [[[f1 h1] q1] a1] (H & _). exact H.
-  - eapply fsafe_bind; [apply (f_resize_safe f h q c); eexists; exact Hw|]. intros [[[f1 h1] q1] a1] H. exact H.
-  - eapply fsafe_bind; [apply (f_peek_mut_safe f h q l k w Hw)|]. intros [[f1 h1] r] H. exact H.
-  - eapply fsafe_bind; [apply (f_contains_safe f h q l k Hw)|]. intros [f1 b] _. cbn. eexists; exact Hw.
-  - destruct (h_get_lru_w h q l w Hw) as (h1 & r & -> & Hok). cbn. exact Hok.
-  - destruct (h_peek_lru_w h q l w Hw) as (h1 & r & -> & Hok). cbn. exact Hok.
-  - destruct (h_peek_mru_w h q l w Hw) as (h1 & r & -> & Hok). cbn. exact Hok.
-  - eapply fsafe_bind; [apply (f_peek_mut_or_put_safe f h q l k v w Hw)|]. intros [[[[f1 h1] q1] a] b] H. exact H.
-  - eapply fsafe_bind; [apply (f_contains_or_put_safe f h q l k v Hw)|]. intros [[[[f1 h1] q1] a] b] H. exact H.
+  intros (l & Hw). eapply fsafe_weaken; [eapply fsafex_fsafe; apply (fstep_safex f h q l o Hw)|].
+  intros [[[f1 h1] q1] r] (qm & (l' & Hw' & _) & Hu). exists l'. eapply wfw_upto; eauto.
 Qed.
+
 
 (** ** Drop: no memory error whatever the state and the fuse; a panic while dropping leaks the rest *)
 Definition noerr {A} (r : fres A) : Prop := match r with FErr _ => False | _ => True end.
